@@ -42,6 +42,24 @@ func DirectRoutes() []Route {
 		{"html.Wrap", "html", func(t tabular.Table) (string, error) { return html.Wrap(t).Render() }},
 		{"json.Wrap", "json", func(t tabular.Table) (string, error) { return json.Wrap(t).Render() }},
 		{"markdown.Wrap", "markdown", func(t tabular.Table) (string, error) { return markdown.Wrap(t).Render() }},
+		// wrappers the program makes itself: every wrapper type is an exported struct embedding the Table interface, all
+		// of whose settings are exported fields - a composite literal (or a zero value whose Table is then set) is a
+		// wrapper like any other, which renders or refuses
+		{"&csv.CSVTable{Table: t} (composite literal)", "csv(literal)", func(t tabular.Table) (string, error) { return (&csv.CSVTable{Table: t}).Render() }},
+		{"&html.HTMLTable{Table: t, Caption, Id, Class} (composite literal)", "html(literal)", func(t tabular.Table) (string, error) {
+			return (&html.HTMLTable{Table: t, Caption: "c", Id: "i", Class: "k"}).Render()
+		}},
+		{"var ht html.HTMLTable; ht.Table = t (zero value)", "html(zero value)", func(t tabular.Table) (string, error) {
+			var ht html.HTMLTable
+			ht.Table = t
+			return ht.Render()
+		}},
+		{"&json.JSONTable{Table: t} (composite literal)", "json(literal)", func(t tabular.Table) (string, error) { return (&json.JSONTable{Table: t}).Render() }},
+		{"&markdown.MarkdownTable{Table: t} (composite literal)", "markdown(literal)", func(t tabular.Table) (string, error) { return (&markdown.MarkdownTable{Table: t}).Render() }},
+		{"&texttable.TextTable{Table: t} (composite literal)", "text(literal)", func(t tabular.Table) (string, error) { return (&texttable.TextTable{Table: t}).Render() }},
+		{"(&texttable.TextTable{Table: t}).SetDecoration(ASCIIBoxSimple())", "text(literal+decoration)", func(t tabular.Table) (string, error) {
+			return (&texttable.TextTable{Table: t}).SetDecoration(decoration.ASCIIBoxSimple()).Render()
+		}},
 	}
 	for _, name := range decoration.RegisteredDecorationNames() {
 		name := name
